@@ -30,6 +30,7 @@ type PipeCase struct {
 	Plan       string `json:"speed_plan"`
 	RealSnap   bool   `json:"real_snap"`
 	StallMs    int    `json:"stall_ms,omitempty"` // the source pauses this long once (a long-running table)
+	BigMulti   bool   `json:"big_multi,omitempty"` // multipolygons with up to several hundred parts
 }
 
 func (pc *PipeCase) JSON() []byte { b, _ := json.Marshal(pc); return b }
@@ -196,7 +197,11 @@ func buildPipeline(pc *PipeCase) (feats []*pfeat, f func(p geom.Polygon, ids []i
 			}
 		case k < 6:
 			var mp geom.MultiPolygon
-			for part := 0; part < 1+rng.Intn(4); part++ {
+			nParts := 1 + rng.Intn(4)
+			if pc.BigMulti && !pc.RealSnap {
+				nParts = fw.Pick(rng, []int{5, 8, 9, 16, 17, 31, 33, 63, 64, 65, 70, 100, 127, 129, 255, 257, 300}) + rng.Intn(3)
+			}
+			for part := 0; part < nParts; part++ {
 				if pc.RealSnap {
 					sc, _ := genSnapCase(rng, &Profile{Sets: []SetChoice{{Spec: pipeSet, Bases: []int{0}, Span: 5}}, Kinds: allKinds})
 					if sc != nil {
@@ -595,6 +600,19 @@ func genPipeCase(rng *fw.Rng) *PipeCase {
 	pc.RealSnap = rng.Chance(1, 10) && pool == 5 // the real library only for ids that exist in the set used
 	if pc.RealSnap && pc.NFeatures > 60 {
 		pc.NFeatures = 60
+	}
+	if !pc.RealSnap {
+		// tile matrix ids are plain ints: negative ones are legal (CDB1GlobalGrid numbers its levels -10..-1), and sets need not start at 0
+		if rng.Chance(1, 8) {
+			off := fw.Pick(rng, []int{-1, -3, -10, -64, 7, 100})
+			for i := range pc.Targets {
+				pc.Targets[i] += off
+			}
+		}
+		pc.BigMulti = rng.Chance(1, 12)
+		if pc.BigMulti && pc.NFeatures > 40 {
+			pc.NFeatures = 40
+		}
 	}
 	return pc
 }
